@@ -93,7 +93,12 @@ func genCtx(t *rapid.T) libexec.TxCtx {
 func genProg(t *rapid.T) libexec.Prog {
 	flags := sgen.Flags(t, sgen.FlagPoolNonSig)
 	var p sgen.Program
-	switch rapid.IntRange(0, 9).Draw(t, "level") {
+	switch rapid.IntRange(0, 11).Draw(t, "level") {
+	case 10:
+		p = sgen.P2SHLookalike(t, flags)
+	case 11:
+		lp, lc := sgen.LockTimeProgram(t, flags)
+		return libexec.Prog{Unlock: lp.Unlock, Lock: lp.Lock, Flags: uint32(lp.Flags), Ctx: libexec.TxCtx{Version: lc.Version, LockTime: lc.LockTime, Seq: lc.Seq, Amount: 1}, Level: lp.Level}
 	case 0:
 		p = sgen.RandomOps(t, flags, excludeSig)
 	case 1, 2:
